@@ -124,76 +124,87 @@ Proof. reflexivity. Qed.
 Lemma nilish_items_cons : forall i j t, nilish_items (i :: j :: t) = nilish_items (j :: t).
 Proof. reflexivity. Qed.
 
-Definition is_func (i : item) : bool := match i with IFunc _ => true | _ => false end.
-Definition head_func (l : list item) : bool := match l with i :: _ => is_func i | [] => false end.
+Fixpoint mem (x : ident) (l : list ident) : bool :=
+  match l with [] => false | y :: t => N.eqb x y || mem x t end.
 
-(* no function item directly follows another function item *)
-Fixpoint no_adj_func (l : list item) : bool :=
-  match l with
-  | [] => true
-  | i :: t => negb (is_func i && head_func t) && no_adj_func t
-  end.
+Lemma mem_app : forall x l m, mem x (l ++ m) = mem x l || mem x m.
+Proof. induction l; simpl; intros; auto. rewrite IHl. now rewrite orb_assoc. Qed.
+
+(* names of the leading run of function items (declared together by the typechecker) *)
+Fixpoint run_names (l : list item) : list ident :=
+  match l with IFunc fd :: t => fd_name fd :: run_names t | _ => [] end.
 
 Definition eq_op (op : binop) : bool := match op with Eq | Ne => true | _ => false end.
 
-Fixpoint ready_expr (e : expr) : bool :=
+(* The items of a block.  P = names that are declared but not yet bound at run time: the later
+   functions of the runs of function items we are in.  A function item must not mention the
+   functions that follow it in its run (nor the pending names of the enclosing runs). *)
+Section ReadyItems.
+  Variable rf : list ident -> fdef -> bool.
+  Variable re : expr -> bool.
+  Variable P : list ident.
+  Fixpoint ready_items_f (l : list item) : bool :=
+    match l with
+    | [] => true
+    | i :: t =>
+      match i with
+      | ILet _ e | IVar _ e => re e && negb (nilish e)
+      | IFunc fd => rf (run_names t ++ P) fd
+      | IExpr e => re e
+      end && ready_items_f t
+    end.
+End ReadyItems.
+
+Fixpoint ready_expr (P : list ident) (e : expr) {struct e} : bool :=
   match e with
-  | EInt _ | EBool _ | EVar _ | ERecNil _ => true
-  | ENeg a | ENot a | EBNot a | EPrint a => ready_expr a
-  | EField a _ _ => ready_expr a
-  | EBin op a b => ready_expr a && ready_expr b &&
+  | EInt _ | EBool _ | ERecNil _ => true
+  | EVar x => negb (mem x P)
+  | ENeg a | ENot a | EBNot a | EPrint a => ready_expr P a
+  | EField a _ _ => ready_expr P a
+  | EBin op a b => ready_expr P a && ready_expr P b &&
                    (negb (eq_op op) || (negb (nilish a) && negb (nilish b)))
-  | ECond c a b => ready_expr c && ready_expr a && ready_expr b
-  | EIf c a => ready_expr c && ready_expr a
-  | EAssign c a => ready_expr c && ready_expr a
-  | EWhile c a => ready_expr c && ready_expr a
-  | EDoWhile a c => ready_expr a && ready_expr c
-  | EIndex c a => ready_expr c && ready_expr a
-  | ECall f args => ready_expr f && forallb ready_expr args
-  | EBlock items => forallb ready_item items && no_adj_func items
-  | EFor i c s b => ready_expr i && ready_expr c && ready_expr s && ready_expr b
-  | ELambda fd => ready_fdef fd
-  | EArrLit es _ => forallb ready_expr es
-  | ERecNew _ es => forallb ready_expr es
+  | ECond c a b => ready_expr P c && ready_expr P a && ready_expr P b
+  | EIf c a => ready_expr P c && ready_expr P a
+  | EAssign c a => ready_expr P c && ready_expr P a
+  | EWhile c a => ready_expr P c && ready_expr P a
+  | EDoWhile a c => ready_expr P a && ready_expr P c
+  | EIndex c a => ready_expr P c && ready_expr P a
+  | ECall f args => ready_expr P f && forallb (ready_expr P) args
+  | EBlock items => ready_items_f ready_fdef (ready_expr P) P items
+  | EFor i c s b => ready_expr P i && ready_expr P c && ready_expr P s && ready_expr P b
+  | ELambda fd => ready_fdef P fd
+  | EArrLit es _ => forallb (ready_expr P) es
+  | ERecNew _ es => forallb (ready_expr P) es
   end
-with ready_item (i : item) : bool :=
-  match i with
-  | ILet _ e | IVar _ e => ready_expr e && negb (nilish e)
-  | IFunc fd => ready_fdef fd
-  | IExpr e => ready_expr e
-  end
-with ready_fdef (fd : fdef) : bool :=
+with ready_fdef (P : list ident) (fd : fdef) {struct fd} : bool :=
   match fd with
   | FDef _ _ _ body catches call =>
-      (forallb ready_item body && no_adj_func body) &&
-      forallb (fun c => forallb ready_item (snd c) && no_adj_func (snd c)) catches &&
+      ready_items_f ready_fdef (ready_expr P) P body &&
+      forallb (fun c => ready_items_f ready_fdef (ready_expr P) P (snd c)) catches &&
       match call with
       | None => true
-      | Some b => forallb ready_item b && no_adj_func b
+      | Some b => ready_items_f ready_fdef (ready_expr P) P b
       end
   end.
 
-Definition ready_items (l : list item) : bool := forallb ready_item l && no_adj_func l.
+Definition ready_items (P : list ident) (l : list item) : bool :=
+  ready_items_f ready_fdef (ready_expr P) P l.
 
-Definition eval_ready (p : program) : bool := forallb ready_fdef (p_funcs p).
+Definition eval_ready (p : program) : bool := forallb (ready_fdef []) (p_funcs p).
 
-Lemma ready_EBlock : forall items, ready_expr (EBlock items) = ready_items items.
+Lemma ready_EBlock : forall P items, ready_expr P (EBlock items) = ready_items P items.
 Proof. reflexivity. Qed.
-Lemma ready_fdef_eq : forall fd, ready_fdef fd =
-  ready_items (fd_body fd) && forallb (fun c => ready_items (snd c)) (fd_catches fd) &&
-  match fd_catch_all fd with None => true | Some b => ready_items b end.
+Lemma ready_fdef_eq : forall P fd, ready_fdef P fd =
+  ready_items P (fd_body fd) && forallb (fun c => ready_items P (snd c)) (fd_catches fd) &&
+  match fd_catch_all fd with None => true | Some b => ready_items P b end.
 Proof. destruct fd; reflexivity. Qed.
-Lemma ready_items_cons : forall i t, ready_items (i :: t) = true ->
-  ready_item i = true /\ ready_items t = true /\ (is_func i = true -> head_func t = false).
-Proof.
-  unfold ready_items. intros i t H. simpl in H.
-  apply andb_true_iff in H. destruct H as [H1 H2].
-  apply andb_true_iff in H1. destruct H1 as [H1 H3].
-  apply andb_true_iff in H2. destruct H2 as [H2 H4].
-  repeat split; auto.
-  - rewrite H3, H4. reflexivity.
-  - intros E. rewrite E in H2. simpl in H2. destruct (head_func t); auto; discriminate.
-Qed.
+Lemma ready_items_cons : forall P i t, ready_items P (i :: t) =
+  match i with
+  | ILet _ e | IVar _ e => ready_expr P e && negb (nilish e)
+  | IFunc fd => ready_fdef (run_names t ++ P) fd
+  | IExpr e => ready_expr P e
+  end && ready_items P t.
+Proof. reflexivity. Qed.
 
 (* ---- environments ------------------------------------------------------------------------ *)
 
@@ -227,8 +238,8 @@ Variable R : list recdecl.
 Variable genv : Eval.env.
 
 (* the environment realises the context: every visible name is bound to a cell of its type *)
-Definition env_ok (S : styping) (G : Types.env) (e : Eval.env) : Prop :=
-  forall x t k, Types.lookup x G = Some (t, k) ->
+Definition env_ok (S : styping) (G : Types.env) (e : Eval.env) (P : list ident) : Prop :=
+  forall x t k, Types.lookup x G = Some (t, k) -> mem x P = false ->
     exists c, lookup_var genv x e = Some c /\ nth_error S c = Some t.
 
 (* F_def with the scope of the function's own name already pushed *)
@@ -250,8 +261,8 @@ Qed.
 Inductive val_ok (S : styping) (st : state) : cellval -> cty -> Prop :=
 | V_int z : val_ok S st (Eval.CInt z) Types.CInt
 | V_bool b : val_ok S st (Eval.CBool b) Types.CBool
-| V_fun fd cenv Gf :
-    env_ok S Gf cenv -> FunOk' Gf fd -> ready_fdef fd = true ->
+| V_fun fd cenv Gf P :
+    env_ok S Gf cenv P -> FunOk' Gf fd -> ready_fdef P fd = true ->
     val_ok S st (Eval.CFun fd cenv)
            (Types.CFun (map (fun p => (snd (fst p), cty_of (snd p))) (fd_params fd)) (cty_of (fd_ret fd)))
 | V_arrnil t : val_ok S st (Eval.CArr None) (Types.CArr t)
@@ -286,9 +297,9 @@ Proof.
   intros S st S' st' cs ts [H _] T. induction T; constructor; auto.
 Qed.
 
-Lemma env_ok_ext : forall S st S' st' G e, ext S st S' st' -> env_ok S G e -> env_ok S' G e.
+Lemma env_ok_ext : forall S st S' st' G e P, ext S st S' st' -> env_ok S G e P -> env_ok S' G e P.
 Proof.
-  intros S st S' st' G e [H _] He x t k L. destruct (He x t k L) as [c [H1 H2]]. eauto.
+  intros S st S' st' G e P [H _] He x t k L M. destruct (He x t k L M) as [c [H1 H2]]. eauto.
 Qed.
 
 Lemma val_ok_ext : forall S st S' st' v t, ext S st S' st' -> val_ok S st v t -> val_ok S' st' v t.
@@ -300,17 +311,24 @@ Proof.
   - econstructor; eauto. eapply typed_cells_ext; eauto.
 Qed.
 
-Lemma env_ok_push : forall S G e, env_ok S G e -> env_ok S ([] :: G) e.
-Proof. intros S G e H x t k L. rewrite lookup_push_nil in L. eauto. Qed.
+Lemma env_ok_push : forall S G e P, env_ok S G e P -> env_ok S ([] :: G) e P.
+Proof. intros S G e P H x t k L M. rewrite lookup_push_nil in L. eauto. Qed.
+
+Lemma env_ok_more : forall S G e P Q, env_ok S G e P -> (forall x, mem x P = true -> mem x Q = true) ->
+  env_ok S G e Q.
+Proof.
+  intros S G e P Q H HPQ x t k L M. apply (H x t k L).
+  destruct (mem x P) eqn:E; auto. apply HPQ in E. congruence.
+Qed.
 
 Lemma lookup_var_cons : forall x y c e,
   lookup_var genv x ((y, c) :: e) = if N.eqb x y then Some c else lookup_var genv x e.
 Proof. intros. unfold lookup_var. simpl. destruct (N.eqb x y); auto. Qed.
 
-Lemma env_ok_declare : forall S G G' e x t k c, env_ok S G e ->
-  declare x (t, k) G = Ok G' -> nth_error S c = Some t -> env_ok S G' ((x, c) :: e).
+Lemma env_ok_declare : forall S G G' e x t k c P, env_ok S G e P ->
+  declare x (t, k) G = Ok G' -> nth_error S c = Some t -> env_ok S G' ((x, c) :: e) P.
 Proof.
-  intros S G G' e x t k c He D Hc y t' k' L.
+  intros S G G' e x t k c P He D Hc y t' k' L M.
   rewrite (declare_lookup _ _ _ _ D) in L. rewrite lookup_var_cons.
   destruct (N.eqb y x).
   - inversion L; subst. eauto.
@@ -325,9 +343,9 @@ Proof. intros S st v H. inversion H; eauto. Qed.
 Lemma val_nil : forall S st v, val_ok S st v Types.CNil -> False.
 Proof. intros S st v H. inversion H. Qed.
 Lemma val_fun : forall S st v ps r, val_ok S st v (Types.CFun ps r) ->
-  exists fd cenv Gf, v = Eval.CFun fd cenv /\
+  exists fd cenv Gf P, v = Eval.CFun fd cenv /\
     ps = map (fun p => (snd (fst p), cty_of (snd p))) (fd_params fd) /\ r = cty_of (fd_ret fd) /\
-    env_ok S Gf cenv /\ FunOk' Gf fd /\ ready_fdef fd = true.
+    env_ok S Gf cenv P /\ FunOk' Gf fd /\ ready_fdef P fd = true.
 Proof. intros S st v ps r H. inversion H; subst. eauto 10. Qed.
 Lemma val_arr : forall S st v t, val_ok S st v (Types.CArr t) ->
   v = Eval.CArr None \/
@@ -504,26 +522,26 @@ Qed.
 Section Params.
 Variable genv : Eval.env.
 
-Lemma params_env_ok : forall S ps Gf G' cs penv cenv,
+Lemma params_env_ok : forall S P ps Gf G' cs penv cenv,
   declare_params ps Gf = Ok G' ->
   bind_params ps cs = Some penv ->
   Forall2 (fun c p => nth_error S c = Some (cty_of (snd p))) cs ps ->
-  env_ok genv S Gf cenv -> env_ok genv S G' (penv ++ cenv).
+  env_ok genv S Gf cenv P -> env_ok genv S G' (penv ++ cenv) P.
 Proof.
-  intros S ps. induction ps as [|[[y v] t] ps IH]; intros Gf G' cs penv cenv D B T He.
+  intros S P ps. induction ps as [|[[y v] t] ps IH]; intros Gf G' cs penv cenv D B T He.
   - destruct cs; inversion B; subst. inversion D; subst. exact He.
   - destruct cs as [|c cs]; [discriminate|]. simpl in B.
     destruct (bind_params ps cs) as [pe|] eqn:E; [|discriminate]. inversion B; subst. clear B.
     inversion T; subst. simpl in H2.
     simpl in D. destruct (declare y (cty_of t, if v then KVar else KConst) Gf) as [G1|] eqn:D1; [|discriminate].
     simpl in D.
-    assert (He1 : env_ok genv S G1 ((y, c) :: cenv)) by (eapply env_ok_declare; eauto).
+    assert (He1 : env_ok genv S G1 ((y, c) :: cenv) P) by (eapply env_ok_declare; eauto).
     pose proof (IH G1 G' cs pe ((y, c) :: cenv) D E H4 He1) as He2.
     (* y is not rebound by the remaining parameters *)
     assert (Hy : Eval.lookup y pe = None).
     { destruct (declare_shape _ _ _ _ D1) as [s [G0 ->]].
       eapply declare_params_fresh; eauto. simpl. rewrite N.eqb_refl. reflexivity. }
-    intros x t' k' L. destruct (He2 x t' k' L) as [c' [L1 L2]]. exists c'. split; auto.
+    intros x t' k' L M. destruct (He2 x t' k' L M) as [c' [L1 L2]]. exists c'. split; auto.
     unfold lookup_var in *. simpl. rewrite lookup_app in L1.
     destruct (N.eqb x y) eqn:Exy.
     + apply N.eqb_eq in Exy. subst x. rewrite Hy in L1. simpl in L1. rewrite N.eqb_refl in L1. exact L1.
